@@ -2,7 +2,8 @@
 from pyvc.api import (Bool, Const, DictOf, Enum, Int, Items, ListOf, Loop, Named, NameTok, Obj, OneOf, Opt, Real,
                       Ref, Str, TupleOf, contract, harness, implies, forall, iff, exists, fmt)
 
-BIND = {"ATOM": "pdb2pqr.pdb:ATOM", "HETATM": "pdb2pqr.pdb:HETATM", "Atom": "pdb2pqr.structures:Atom"}
+BIND = {"ATOM": "pdb2pqr.pdb:ATOM", "HETATM": "pdb2pqr.pdb:HETATM", "Atom": "pdb2pqr.structures:Atom",
+        "drop_water": "pdb2pqr.main:drop_water"}
 
 
 def MODEL_ATOM(t, seg=Const(""), element=Const("C"), charge=Const("")):
@@ -98,3 +99,26 @@ def in_order(result, original):
         ok = ok and k > pos
         pos = k
     return ok
+
+
+# ---------------------------------------------------------------- drop_water on records parsed from real lines
+# (the serial number may fill its five columns and touch the record name: "HETATM10000")
+@harness(["C07", "C09"], params={"serial": Int}, requires=["serial >= -9999 and serial <= 99999"],
+         ensures=["len(result) == 0"], name="drop_water.parsed_record.HOH", budget=60000)
+def drop_parsed_hoh(serial):
+    line = "HETATM" + fmt(serial, "5d") + "  O   HOH A   1      11.000  12.000  13.000  1.00  0.00           O  \n"
+    return drop_water([HETATM(line)])
+
+
+@harness(["C07", "C09"], params={"serial": Int}, requires=["serial >= -9999 and serial <= 99999"],
+         ensures=["len(result) == 0"], name="drop_water.parsed_record.WAT", budget=60000)
+def drop_parsed_wat(serial):
+    line = "ATOM  " + fmt(serial, "5d") + "  O   WAT A   1      11.000  12.000  13.000  1.00  0.00           O  \n"
+    return drop_water([ATOM(line)])
+
+
+@harness(["C07", "C09"], params={"serial": Int}, requires=["serial >= -9999 and serial <= 99999"],
+         ensures=["len(result) == 1"], name="drop_water.parsed_record.GLY", budget=60000)
+def drop_parsed_gly(serial):
+    line = "HETATM" + fmt(serial, "5d") + "  O   GLY A   1      11.000  12.000  13.000  1.00  0.00           O  \n"
+    return drop_water([HETATM(line)])
